@@ -414,7 +414,7 @@ def anchored_value_cond(r, child, mode, depth, meaningful=False, jsonable=False)
     c = r.pct()
     if jsonable and not _jsonable(child):
         c = c % 55 if isinstance(child, (str, list, dict)) else c % 35
-    if c < 35:
+    if c < 35 and type(child) in TYPES:
         anchor = Leaf("value", "dtype", "equal_to", kwargs={"value": type(child)})
     elif c < 55 and isinstance(child, (str, list, dict)):
         anchor = Leaf("value", "length", r.choice(["equal_to", "less_than_or_equal_to"]), kwargs={"value": len(child)})
